@@ -345,10 +345,11 @@ type c10Get struct {
 }
 
 type c10PartyResult struct {
-	out  []*big.Int
-	gets []c10Get
-	err  error
-	step string
+	out    []*big.Int
+	gets   []c10Get
+	err    error
+	step   string
+	filled uint64 // Pool.NumTriples once the generator stopped producing
 }
 
 type c10Plan struct {
@@ -360,6 +361,28 @@ type c10Plan struct {
 	delays  [][]int // per party: ms before join, connect, run/get, close
 	order   []int   // start order of the non-leader parties
 	timeout time.Duration
+	// waitFill: after Connect wait until the offline phase has filled the
+	// pool and the generator has parked (Pool.NumTriples stops growing)
+	waitFill bool
+}
+
+// c10WaitFilled polls Pool.NumTriples (an unsynchronised statistics counter)
+// until it has not changed for 500 ms, at most 30 s.
+func c10WaitFilled(nw *gmw.Network) uint64 {
+	last := nw.Pool.NumTriples
+	stable := time.Now()
+	deadline := time.Now().Add(30 * time.Second)
+	for time.Now().Before(deadline) {
+		time.Sleep(50 * time.Millisecond)
+		cur := nw.Pool.NumTriples
+		if cur != last {
+			last = cur
+			stable = time.Now()
+		} else if cur > 0 && time.Since(stable) > 500*time.Millisecond {
+			break
+		}
+	}
+	return last
 }
 
 func c10Sleep(ms int) {
@@ -413,6 +436,10 @@ func c10RunNetwork(p *c10Plan) (res []c10PartyResult, stalled bool, retry bool) 
 			return
 		}
 		c10Sleep(p.delays[id][2])
+		if p.waitFill {
+			r.step = "wait-filled"
+			r.filled = c10WaitFilled(nw)
+		}
 		if p.drain {
 			r.step = "get"
 			tr := new(gmw.Triples)
@@ -900,5 +927,102 @@ func runC10(c *Ctx) error {
 		obs := L(L(wpg...), I(1), I(validFlag), I(totalWords), L(outs1...))
 		c.Case(in, obs)
 	}
+	return c10Wide(c, timeout)
+}
+
+// c10WideCircuit: one AND level with more gates than the full pool holds
+// triples (64 + 32*128 words = 266240), built directly as circuit.Circuit.
+func c10WideCircuit(r *RNG, ands int) *circuit.Circuit {
+	sizes := []int{8, 8}
+	ni := 16
+	gates := make([]circuit.Gate, 0, ands+16)
+	next := ni
+	// a level of local gates first, so that the AND level mixes shares
+	for k := 0; k < 16; k++ {
+		op := circuit.XOR
+		if k%3 == 0 {
+			op = circuit.XNOR
+		}
+		gates = append(gates, circuit.Gate{Input0: circuit.Wire(k), Input1: circuit.Wire((k + 1 + r.Intn(15)) % 16), Output: circuit.Wire(next), Op: op})
+		next++
+	}
+	for k := 0; k < ands; k++ {
+		gates = append(gates, circuit.Gate{Input0: circuit.Wire(r.Intn(32)), Input1: circuit.Wire(r.Intn(32)), Output: circuit.Wire(next), Op: circuit.AND})
+		next++
+	}
+	c := &circuit.Circuit{NumGates: len(gates), NumWires: next, Gates: gates}
+	c.Inputs = c10IO("p", sizes)
+	c.Outputs = c10IO("r", []int{32})
+	for _, g := range gates {
+		c.Stats[g.Op]++
+	}
+	return c
+}
+
+// c10Wide: a Get larger than the pool, issued after the pool has filled and
+// the generator has parked on the condition variable.
+func c10Wide(c *Ctx, timeout time.Duration) error {
+	r := c.rng.Fork()
+	n := 2
+	ands := 266240 + r.Range(1, 6000)
+	circ := c10WideCircuit(r, ands)
+	circ.AssignLevels(utils.TargetGMW)
+	inputs := []*big.Int{new(big.Int).SetUint64(r.U64() & 0xff), new(big.Int).SetUint64(r.U64() & 0xff)}
+	inStr := []string{inputs[0].Text(16), inputs[1].Text(16)}
+	want, err := circ.Compute(inputs)
+	if err != nil {
+		return fmt.Errorf("wide: Compute: %v", err)
+	}
+	wantBits := JoinOutputs(circ, want)
+	needWords := (ands + 63) / 64
+	replay := c10Replay{Seed: c.Seed, Case: -1, Parties: n, Kind: "wide-level", Inputs: inStr, Want: bitsString(wantBits),
+		Detail: fmt.Sprintf("raw circuit: 16 XOR/XNOR gates, then one level of %d AND gates (%d words > 4160 words of the full pool); Run starts after the pool has filled", ands, needWords)}
+	var res []c10PartyResult
+	var stalled bool
+	for attempt := 0; attempt < 4; attempt++ {
+		d := [][]int{{0, 0, 0, 0}, {0, r.Intn(20), 0, r.Intn(20)}}
+		var retry bool
+		res, stalled, retry = c10RunNetwork(&c10Plan{n: n, circ: circ, inputs: inputs, delays: d, order: []int{1}, timeout: timeout + 30*time.Second, waitFill: true})
+		if !retry {
+			break
+		}
+		c.Hist("harness:port-retry")
+	}
+	c.Eval(fmt.Sprintf("wide|%d|%s", ands, strings.Join(inStr, ",")), true)
+	c.Hist("kind:wide-level")
+	done := 1
+	if stalled {
+		done = 0
+		var steps []string
+		for p := range res {
+			steps = append(steps, fmt.Sprintf("%d:%s(pool filled to %d triples)", p, res[p].step, res[p].filled))
+		}
+		rp := replay
+		rp.Detail += "; not finished after " + (timeout + 30*time.Second).String() + "; parties at " + strings.Join(steps, " ")
+		c.Fail("c10:Pool.Get:wide-level-stalls", "Network.Run hangs in Pool.Get when one AND level needs more triples than the full pool holds", rp)
+	} else {
+		var gotStr []string
+		for p := range res {
+			if res[p].err != nil {
+				rp := replay
+				rp.Detail += fmt.Sprintf("; party %d failed at %s: %v", p, res[p].step, res[p].err)
+				c.Fail(fmt.Sprintf("c10:wide:error:%s", res[p].step), "GMW party returned an error", rp)
+				return nil
+			}
+			gotStr = append(gotStr, bitsString(JoinOutputs(circ, res[p].out)))
+		}
+		for _, g := range gotStr {
+			if g != bitsString(wantBits) {
+				rp := replay
+				rp.Got = gotStr
+				c.Fail("c10:wide:wrong-output", "a party's GMW output differs from Circuit.Compute", rp)
+				break
+			}
+		}
+	}
+	// model case, mode 2: pool words when the generator parked (leader), Get completes
+	filledWords := int(res[0].filled / 64)
+	c.Case(L(I(2), I(needWords)), L(I(filledWords), I(1), I(done)))
+	c.Note("wide level: %d ANDs = %d words; pool filled to %d triples before Run", ands, needWords, res[0].filled)
 	return nil
 }
